@@ -7,6 +7,7 @@ package meta
 // directly, exactly as hashicorp/raft does after a log entry is committed.
 
 import (
+	"bytes"
 	"fmt"
 	"sort"
 	"strings"
@@ -341,3 +342,13 @@ func vHasLiveGroup(d *Data) bool {
 	}
 	return false
 }
+
+// vSink is an in-memory raft.SnapshotSink.
+type vSink struct {
+	bytes.Buffer
+	cancelled bool
+}
+
+func (s *vSink) ID() string    { return "verif" }
+func (s *vSink) Cancel() error { s.cancelled = true; return nil }
+func (s *vSink) Close() error  { return nil }
